@@ -482,3 +482,29 @@ func AuditRandArgs(r *Rng) AuditArgs {
 		UploadID: "up-" + auditItoa(int64(1+r.Intn(9))), Part: int32(1 + r.Intn(10000)),
 	}
 }
+
+// ---------- process time zone ----------
+
+// AuditZones: the zones the harness process is put into (time.Local), so that the time.Now() calls of
+// the code under test itself yield timestamps carrying these Locations.
+var AuditZones = []struct {
+	Name string
+	Off  int // seconds east of UTC
+}{
+	{"UTC", 0},
+	{"+02:00", 2 * 3600},
+	{"-03:30", -(3*3600 + 30*60)},
+	{"+03:17:43", 3*3600 + 17*60 + 43},
+	{"+12:45", 12*3600 + 45*60},
+}
+
+// AuditSetZone puts the process into zone i (mod len) and returns its offset in seconds.
+func AuditSetZone(i int) int {
+	z := AuditZones[((i%len(AuditZones))+len(AuditZones))%len(AuditZones)]
+	if z.Off == 0 {
+		time.Local = time.UTC
+	} else {
+		time.Local = time.FixedZone(z.Name, z.Off)
+	}
+	return z.Off
+}
